@@ -109,7 +109,7 @@ class Engine(CoreMixin, ExprMixin, CallMixin, StmtMixin, BuiltinMixin):
         return False
 
     def concrete_class(self, contract, fi):
-        if contract.inst:
+        if contract.inst and (fi.cls is not None or contract.inst in self.spec_names):
             return self.spec_names[contract.inst]
         return fi.cls
 
@@ -142,6 +142,9 @@ class Engine(CoreMixin, ExprMixin, CallMixin, StmtMixin, BuiltinMixin):
                 self.input_terms[p] = v.t
                 continue
             kind = contract.kinds.get(p)
+            if isinstance(kind, str) and kind.startswith("const:"):
+                env[p] = PyC(kind[len("const:"):])
+                continue
             kcls = None
             exact = False
             if isinstance(kind, str) and kind.startswith("="):
@@ -334,6 +337,8 @@ class Engine(CoreMixin, ExprMixin, CallMixin, StmtMixin, BuiltinMixin):
             btext = "\n".join(body)
         if "MEM-EX" in (getattr(contract, "lemmas", []) or []):
             parts.append(smt.spec_module("mod_mem"))
+        if "(ismem " in btext:
+            parts.append(smt.spec_module("mod_ismem"))
         if "DICT-ITEM" in (getattr(contract, "lemmas", []) or []):
             parts.append(smt.spec_module("mod_dict"))
         if "is_json" in btext:
